@@ -34,6 +34,7 @@ class ModelSystem(System):
         self.ep_steps = cfg.get('ep_steps', ['access', 'root'])
         self.pair_classes = set(cfg.get('pair_classes', []))   # classes explored with 2-member sides
         self.invalid_ops = cfg.get('invalid_ops', True)
+        self.graph_oracle = cfg.get('graph_oracle', False)
         sp = cfg['spec']
         self.par = {a['name']: a['superAsset'] for a in sp['assets']}
         # association classes as the factory names them, with declared ends
@@ -95,6 +96,8 @@ class ModelSystem(System):
             for i in c.freed_ids[-1:]:
                 if i not in [x for x, _ in ids] and i not in live_ids:
                     ids.append((i, 1))
+            if self.cfg.get('simple_assets'):
+                names, ids = names[:2], ids[:1]
             seen = set()
             for t in self.types:
                 for n, dn in names:
@@ -151,6 +154,8 @@ class ModelSystem(System):
                 ops.append((('remove_association', h), 1))
                 for a in sorted(c.r_assets)[:1]:
                     ops.append((('remove_asset_from_association', a, h), 1))
+        if self.graph_oracle and c.r_assets:
+            ops.append((('generate_graph',), 0))
         # attackers
         if len(c.r_attackers) < self.max_attackers:
             ops.append((('add_attacker', None), 0))
@@ -294,8 +299,8 @@ class ModelSystem(System):
                              for g, t in c.r_attackers.items()}
         return o
 
-    def compare(self, c, opname, tag=''):
-        obs, exp = self.observe(c), self.expected(c)
+    def compare(self, c, opname, tag='', obs=None):
+        obs, exp = (obs if obs is not None else self.observe(c)), self.expected(c)
         if len(set(a['id'] for a in c.r_assets.values())) != len(c.r_assets):
             raise Violation(f'{opname}:live_ids_not_unique{tag}', 'two live assets share an id')
         if len(set(a['name'] for a in c.r_assets.values())) != len(c.r_assets):
@@ -310,9 +315,12 @@ class ModelSystem(System):
 
     # ---------------------------------------------------------------- transitions
     def step(self, c, op, checking):
+        """Replays (checking=False) perform exactly the same real calls - including the read-only
+        observation calls - as checked steps, so that state hidden behind read paths (caches) evolves
+        identically and a replayed prefix reproduces the recorded state key."""
         kind = op[0]
         c.n_ops += 1
-        before = self.observe(c) if checking else None
+        before = self.observe(c)
         mode, thunk, commit, tag = getattr(self, 'op_' + kind)(c, op)
         raised = None
         try:
@@ -320,35 +328,39 @@ class ModelSystem(System):
         except Exception as e:  # noqa: BLE001 - exception types are not compared
             raised = e
         c.last_outcome = (mode, 'raised' if raised is not None else 'ok')
+        after = self.observe(c)
         if mode == MUST_RAISE:
             if raised is None:
                 if checking:
                     raise Violation(f'{kind}:accepted_but_must_be_rejected:{tag}',
                                     f'{kind} {tag}: call must be rejected but succeeded')
                 return
-            if checking and self.observe(c) != before:
+            if checking and after != before:
                 raise Violation(f'{kind}:raised_but_state_changed:{tag}',
                                 f'{kind} {tag} raised {type(raised).__name__} but changed the observable state',
-                                expected=_s(before), observed=_s(self.observe(c)))
+                                expected=_s(before), observed=_s(after))
             return
         if mode == ANY_UNCHANGED:
-            if checking and self.observe(c) != before:
+            if checking and after != before:
                 k = 'raised_but_state_changed' if raised is not None else 'invalid_call_changed_state'
                 raise Violation(f'{kind}:{k}:{tag}',
                                 f'{kind} {tag} (invalid arguments) changed the observable state',
-                                expected=_s(before), observed=_s(self.observe(c)))
+                                expected=_s(before), observed=_s(after))
             return
         # MUST_SUCCEED
         if raised is not None:
             if checking:
-                changed = self.observe(c) != before
+                changed = after != before
                 raise Violation(f'{kind}:valid_call_raised:{tag}' + (':state_changed' if changed else ''),
                                 f'{kind} {tag}: valid call raised {type(raised).__name__}: {raised}')
             c.broken = True
             return
         commit(checking)
+        final = self.observe(c)          # after commit: the lookups cover the ids / names just created
         if checking:
-            self.compare(c, kind, ':' + tag if tag else '')
+            self.compare(c, kind, ':' + tag if tag else '', obs=final)
+        if self.graph_oracle and kind != 'generate_graph':
+            self.check_graph(c, kind, checking)
 
     def key(self, c):
         ref = (sorted(c.r_assets.items(), key=repr), sorted(c.r_assocs.items(), key=repr),
@@ -356,6 +368,63 @@ class ModelSystem(System):
                sorted(c.ever_names), c.freed_ids[-1:], c.freed_names[-1:],
                len(c.assets), len(c.assocs), len(c.attackers))
         return canon.key((c.model, repr(ref)))
+
+    # -- graph oracle (C01 over models reached by edit histories)
+    def plain(self, c):
+        from .refs.sem import PlainModel
+        assets = [(a['name'], a['type']) for _h, a in sorted(c.r_assets.items())]
+        nm = {h: a['name'] for h, a in c.r_assets.items()}
+        links = [(x['cls'], x['lf'], [nm[h] for h in x['L']], x['rf'], [nm[h] for h in x['R']])
+                 for _g, x in sorted(c.r_assocs.items())]
+        return PlainModel(assets, links)
+
+    def check_graph(self, c, kind, checking=True):
+        from maltoolbox.attackgraph import AttackGraph
+        from .refs import inherit, sem
+        if not hasattr(self, '_lang'):
+            self._lang = sem.Lang(self.cfg['spec'])
+            self._resolved = {}
+        pm = self.plain(c)
+        try:
+            g = AttackGraph(self.fx.lang_graph, c.model)
+        except Exception as e:  # noqa: BLE001
+            if not checking:
+                return
+            raise Violation(f'graph_after:{kind}:generation_raised:{type(e).__name__}',
+                            f'attack-graph generation on the model reached by this history raised {e}')
+        if not checking:
+            return
+        nodes = {(str(n.asset.name), n.name): n for n in g.nodes}
+        for name, t in pm.assets:
+            if t not in self._resolved:
+                self._resolved[t] = inherit.resolve(self.cfg['spec'], t)
+            for sname, r in self._resolved[t].items():
+                lo, hi = set(), set()
+                for e in r['reaches']:
+                    if e['type'] == 'attackStep':
+                        a, tgt = ({name}, {name}), e['name']
+                    else:
+                        a, tgt = sem.ev(self._lang, pm, e['lhs'], {name}, {name}), e['rhs']['name']
+                    lo |= {(x, tgt) for x in a[0]}
+                    hi |= {(x, tgt) for x in a[1]}
+                n = nodes.get((name, sname))
+                if n is None:
+                    raise Violation(f'graph_after:{kind}:node_missing', f'no node {name}:{sname}')
+                got = {(str(ch.asset.name), ch.name) for ch in n.children}
+                if not (lo <= got <= hi):
+                    raise Violation(f'graph_after:{kind}:children_mismatch',
+                                    f'children of {name}:{sname} on the model reached by this history differ from the MAL semantics',
+                                    expected={'lo': sorted(lo), 'hi': sorted(hi)}, observed=sorted(got))
+        if len(nodes) != sum(len(self._resolved[t]) for _n, t in pm.assets):
+            raise Violation(f'graph_after:{kind}:node_set', 'node set is not assets x exposed steps')
+
+    def op_generate_graph(self, c, op):
+        def thunk():
+            pass
+
+        def commit(checking):
+            self.check_graph(c, 'generate_graph', checking)
+        return MUST_SUCCEED, thunk, commit, ''
 
     # -- add_asset
     def op_add_asset(self, c, op):
